@@ -56,7 +56,7 @@ TraceSpec == TraceInit /\ [][Step]_tvars
 
 (* C01: encoding succeeds and decoding the real output gives back the (normalised) message *)
 LawRoundTrip ==
-    (l <= Len(Trace) /\ Ev.op = "rt" /\ ~Ev.wfonly) => (Ev.encok /\ Ev.decok /\ Ev.back = Ev.val)
+    (l <= Len(Trace) /\ Ev.op = "rt" /\ ~Ev.wfonly) => (Ev.encok /\ Ev.decok /\ Ev.back = NormNode(Ev.sch, Ev.val))
 
 (* C08: every successful encoding is well-formed JSON; in the representable range it is Enc(schema, v) *)
 LawWellFormed ==
